@@ -16,7 +16,7 @@ def run(ctx):
     cases = fsfam.standard_cases(thorough)
     bl = fsfam.baselines(ctx, drv, cases)
     fsfam.judge_traces(ctx, [(b["case"], b["lines"]) for b in bl], "syscalls")
-    n, jobs = fsfam.fault_runs(ctx, drv, bl, errnos=fsfam.ERRNOS if thorough else ("ENOSPC", "EACCES"))
+    n, jobs, _ = fsfam.fault_runs(ctx, drv, bl, errnos=fsfam.ERRNOS if thorough else ("ENOSPC", "EACCES"))
     # read-only operations: no mutating system call at all
     ro = 0
     for op in ("auth", "exists", "list", "listfull", "check"):
